@@ -835,3 +835,237 @@ class Gen:
 def gen_program(rng, big=False):
     """One random stratifiable program with base facts (see class Gen)."""
     return Gen(rng, big).program()
+
+
+# ------------------------------------------------------------------ alias stream (C01)
+# Variable-variable aliasing (`X = Y` with neither side bound yet) is outside the Coq model
+# (Solve.v step_pure: an error of the model). The functions below build, from an alias-free
+# clause, declaratively equivalent variants in which some occurrences of a variable are
+# replaced by fresh variables tied to it by equalities; checks/c01.py runs both texts on Go
+# and requires equal results. Add-only: nothing above this line uses them.
+def gen_program_sig(rng, big=False):
+    """As gen_program, plus the column types of every predicate ({pred: (ty, ...)})."""
+    g = Gen(rng, big)
+    prog = g.program()
+    return prog, dict(g.sig)
+
+
+def _walk_clause(c, f):
+    """Rebuild clause c, handing every variable occurrence, in the fixed order head, body
+    left to right, let statements, to f(var, kind, where) -> var. kind: head, atom, neg, cmp,
+    ineq, eq (the variable is one side of the equality), let, or <kind>-fn (inside a function
+    application); where: -1 head, body index, len(body) for the transform. The variable a let
+    statement defines is not an occurrence."""
+    def term(t, kind, where):
+        if t[0] == "var":
+            return ["var", f(t[1], kind, where)]
+        if t[0] == "app":
+            k2 = kind if (kind == "let" or kind.endswith("-fn")) else kind + "-fn"
+            return ["app", t[1], [term(x, k2, where) for x in t[2]]]
+        return t
+    head = {"p": c["head"]["p"], "args": [term(t, "head", -1) for t in c["head"]["args"]]}
+    body = []
+    for j, p in enumerate(c["body"]):
+        if p[0] in ("atom", "neg"):
+            body.append([p[0], {"p": p[1]["p"], "args": [term(t, p[0], j) for t in p[1]["args"]]}])
+        elif p[0] == "cmp":
+            body.append(["cmp", p[1], term(p[2], "cmp", j), term(p[3], "cmp", j)])
+        else:
+            body.append([p[0], term(p[1], p[0], j), term(p[2], p[0], j)])
+    let = [[v, term(t, "let", len(c["body"]))] for v, t in c.get("let", [])]
+    return {"head": head, "body": body, "let": let}
+
+
+def clause_occurrences(c):
+    """[{"i", "var", "kind", "where"}] in the order of _walk_clause."""
+    occs = []
+
+    def f(v, kind, where):
+        occs.append({"i": len(occs), "var": v, "kind": kind, "where": where})
+        return v
+    _walk_clause(c, f)
+    return occs
+
+
+def clause_has_fn(c, fname):
+    """Does the function occur anywhere in the clause?"""
+    def in_term(t):
+        return t[0] == "app" and (t[1] == fname or any(in_term(x) for x in t[2]))
+    ts = list(c["head"]["args"]) + [t for _, t in c.get("let", [])]
+    for p in c["body"]:
+        ts += p[1]["args"] if p[0] in ("atom", "neg") else (p[2:4] if p[0] == "cmp" else p[1:3])
+    return any(in_term(t) for t in ts)
+
+
+ALIAS_MODES = ["let", "let", "let", "head", "head", "neg", "neg", "cmp", "ineq", "fn", "fn", "atom", "atom",
+               "random", "random"]
+
+
+def _mode_kinds(mode):
+    return {"let": ("let",), "head": ("head",), "neg": ("neg",), "cmp": ("cmp",), "ineq": ("ineq",),
+            "fn": ("head-fn", "cmp-fn", "ineq-fn", "eq-fn"), "atom": ("atom",)}[mode]
+
+
+def alias_step(rng, c, tight=False):
+    """One aliasing step on clause c: a variable V of the body, a chain/tree of 1-3 fresh
+    variables W1.. linked to it by equalities (random orientation, inserted at random body
+    positions, possibly BEFORE the premise that first mentions V), and some occurrences of V
+    handed over to the Wi. The declarative reading is unchanged (the equalities force all
+    members equal). With tight=True every equality is placed before the first body occurrence
+    of V, so that also every intermediate solution set of the left-to-right join is the
+    original one (used for clauses with fn:div, where a wider intermediate join could raise
+    an error the original does not raise). Returns (clause, info) or None."""
+    occs = clause_occurrences(c)
+    n = len(c["body"])
+    letdefs = set(v for v, _ in c.get("let", []))
+    cand = sorted(set(o["var"] for o in occs if 0 <= o["where"] < n) - letdefs)
+    if not cand:
+        return None
+    mode = rng.choice(ALIAS_MODES)
+    if mode != "random":
+        ks = _mode_kinds(mode)
+        have = sorted(set(o["var"] for o in occs if o["kind"] in ks and o["var"] in cand))
+        if not have:
+            mode = "random"
+        else:
+            cand = have
+    v = rng.choice(cand)
+    mine = [o for o in occs if o["var"] == v]
+    length = rng.choice([1, 1, 1, 2, 2, 3])
+    nxt = max(clause_vars(c)) + 1
+    members = [v] + [nxt + k for k in range(length)]
+    links = []                      # (child, parent)
+    for k in range(1, length + 1):
+        parent = members[k - 1] if rng.random() < 0.7 else rng.choice(members[:k])
+        links.append((members[k], parent))
+    assign = {}
+    if mode == "random":
+        for o in mine:
+            if rng.random() < 0.5:
+                assign[o["i"]] = rng.choice(members[1:])
+        if not assign:
+            assign[rng.choice(mine)["i"]] = members[-1]
+    else:
+        tgt = [o for o in mine if o["kind"] in _mode_kinds(mode)]
+        if len(tgt) > 1 and rng.random() < 0.3:
+            tgt = rng.sample(tgt, rng.randint(1, len(tgt) - 1))
+        for o in tgt:
+            assign[o["i"]] = members[-1]
+        if rng.random() < 0.25:
+            for o in mine:
+                if o["i"] not in assign and rng.random() < 0.4:
+                    assign[o["i"]] = rng.choice(members[1:])
+    first = min([o["where"] for o in mine if 0 <= o["where"] < n])
+    x = rng.random()
+    placement = "before" if (tight or x < 0.5) else ("after" if x < 0.75 else "any")
+    eqs = []
+    for child, parent in links:
+        if placement == "before":
+            slot = rng.randint(0, first)
+        elif placement == "after":
+            slot = rng.randint(first + 1, n)
+        else:
+            slot = rng.randint(0, n)
+        new_left = rng.random() < 0.5
+        eqs.append((slot, rng.random(), ["eq", var(child), var(parent)] if new_left else ["eq", var(parent), var(child)],
+                    "new=old" if new_left else "old=new"))
+    counter = [0]
+
+    def f(w, kind, where):
+        i = counter[0]
+        counter[0] += 1
+        return assign.get(i, w)
+    out = _walk_clause(c, f)
+    body = []
+    for j in range(n + 1):
+        for e in sorted([e for e in eqs if e[0] == j], key=lambda e: e[1]):
+            body.append(e[2])
+        if j < n:
+            body.append(out["body"][j])
+    out["body"] = body
+    moved = sorted(set(o["kind"] for o in mine if o["i"] in assign))
+    binder = c["body"][first][0]
+    if binder == "eq":
+        e = c["body"][first]
+        binder = "eq-fn" if (e[1][0] == "app" or e[2][0] == "app") else ("eq-const" if (e[1][0] == "c" or e[2][0] == "c") else "eq-var")
+    info = {"var": v, "chain": length, "mode": mode, "placement": placement, "moved": moved,
+            "only": moved[0] if len(moved) == 1 and all((o["i"] in assign) == (o["kind"] == moved[0]) for o in mine) else None,
+            "orient": [e[3] for e in eqs], "slots": [e[0] for e in eqs], "first_use": first, "binder": binder,
+            "eq_before_binder": any(e[0] <= first for e in eqs)}
+    return out, info
+
+
+def alias_candidates(rng, c, k):
+    """Up to k distinct aliasing variants of clause c (each 1, sometimes 2 steps) with their
+    descriptions: [(clause, [info, ...])]."""
+    tight = clause_has_fn(c, "div")
+    out, seen = [], set([clause_text(c)])
+    for _ in range(2 * k):
+        if len(out) >= k:
+            break
+        r = alias_step(rng, c, tight)
+        if r is None:
+            break
+        cl, infos = r[0], [r[1]]
+        if rng.random() < 0.25:
+            r2 = alias_step(rng, cl, tight)
+            if r2 is not None:
+                cl, infos = r2[0], infos + [r2[1]]
+        t = clause_text(cl)
+        if t not in seen:
+            seen.add(t)
+            out.append((cl, infos))
+    return out
+
+
+def clause_var_types(c, sig):
+    """{var: column type} as far as the positive atoms (through sig) and the defining
+    equalities of the body tell."""
+    ty = {}
+    for p in c["body"]:
+        if p[0] == "atom" and p[1]["p"] in sig:
+            for t, col in zip(p[1]["args"], sig[p[1]["p"]]):
+                if t[0] == "var":
+                    ty.setdefault(t[1], col)
+    for p in c["body"]:
+        if p[0] == "eq":
+            for a, b in ((p[1], p[2]), (p[2], p[1])):
+                if a[0] == "var" and b[0] == "app" and a[1] not in ty:
+                    ty[a[1]] = {"pair": "P", "list": "L", "cons": "L"}.get(b[1], "N")
+    return ty
+
+
+def add_lets(rng, prog, sig, prob=0.7):
+    """Template of the alias stream: give non-recursive clauses without a transform a
+    let-transform over their numeric body variables (1-2 statements, the second may use the
+    first; never the shapes of findings N64/N65: no use of a later let variable, no function
+    application over a let variable in the head); the head's numeric column then sometimes
+    shows the let variable. The result stays inside the modelled fragment and is still
+    compared with the Coq model. Returns the number of clauses changed."""
+    layer_of = {p: i for i, l in enumerate(prog["layers"]) for p in l}
+    changed = 0
+    for c in prog["clauses"]:
+        hp = c["head"]["p"]
+        if c.get("let") or rng.random() > prob:
+            continue
+        if any(p[0] == "atom" and layer_of.get(p[1]["p"]) == layer_of.get(hp) for p in c["body"]):
+            continue
+        ty = clause_var_types(c, sig)
+        ns = sorted(v for v, t in ty.items() if t == "N")
+        if not ns:
+            continue
+        nxt = max(clause_vars(c)) + 1
+        lets = []
+        a = rng.choice(ns)
+        b = var(rng.choice(ns)) if rng.random() < 0.3 else cst(num(rng.choice([1, 1, 2, 3])))
+        lets.append([nxt, app(rng.choice(["plus", "minus", "mult"]), var(a), b)])
+        if rng.random() < 0.35:
+            lets.append([nxt + 1, app(rng.choice(["plus", "minus"]), var(nxt), var(rng.choice(ns)))])
+        cols = [i for i, col in enumerate(sig.get(hp, ())) if col == "N" and c["head"]["args"][i][0] in ("var", "c")]
+        if cols and rng.random() < 0.75:
+            c["head"]["args"][rng.choice(cols)] = var(lets[-1][0])
+        c["let"] = lets
+        changed += 1
+    if changed:
+        prog["features"] = sorted(set(prog.get("features", [])) | {"let", "alias-let-template"})
+    return changed
